@@ -51,12 +51,13 @@ TraceSetup ==
      /\ ("C03" \in Lens) => e.res = "ok"          \* restart on its own database succeeds
      /\ ~e.restart => e.res = "ok"                \* first setup on an empty database (any lens)
      /\ up' = (e.res = "ok")
+     /\ lease' = IF "lease" \in DOMAIN e THEN e.lease ELSE lease    \* the lease time configured for this instance (it may change between restarts)
      \* a binding that was handed out while the store could not be written may or may not have reached the store
      \* later: a restart keeps some subset K of those (the crash points that follow tell which)
      /\ \E K \in (IF e.restart THEN SUBSET (nobind \cap DOMAIN bound) ELSE {{}}) :
           /\ bound' = IF e.restart THEN [m \in (DOMAIN bound \ nobind) \cup K |-> bound[m]] ELSE bound
           /\ nobind' = IF e.restart THEN {} ELSE nobind
-  /\ UNCHANGED <<N, lease, promise, faulty, noexp>>
+  /\ UNCHANGED <<N, promise, faulty, noexp>>
 
 \* the guard of C02 for one linearized request of client m answered with res / idx
 ReqOK(m, res, idx) ==
@@ -71,10 +72,12 @@ ReqOK(m, res, idx) ==
 TraceReq ==
   /\ IsEvent("req") /\ up
   /\ LET e == Trace[l] IN
+     /\ e.res # "hang"                              \* whatever the lens: a request that never comes back (C01; C02 "keep being served")
+     /\ ("C01" \in Lens) => e.res # "panic"
      /\ C02on => /\ ReqOK(e.mac, e.res, e.idx)
                  /\ e.res = "reply" => e.lease = lease
      /\ bound' = IF e.res = "reply" /\ e.mac \notin DOMAIN bound THEN Ext(bound, e.mac, e.idx) ELSE bound
-     /\ promise' = IF e.res = "reply" THEN Ext(promise, e.mac, e.t0 + lease) ELSE promise
+     /\ promise' = IF e.res = "reply" THEN Ext(promise, e.mac, e.t0 + e.lease) ELSE promise     \* what THIS reply promised
      /\ nobind' = IF e.res = "reply" /\ e.mac \notin DOMAIN bound
                   THEN (IF faulty THEN nobind \cup {e.mac} ELSE nobind \ {e.mac})     \* a fresh binding is durable iff the store was writable
                   ELSE nobind
